@@ -23,9 +23,7 @@ template<> struct Delegate<void, void*> : public Delegate_Base {
 };
 // Stand-in for std::unordered_set<Item*, ItemHash, ItemEqual> (libstdc++ hash-table code is outside the property and costs minutes of
 // symbolic execution): a small array (USLOTS entries) with the same find / emplace / erase / iteration contract, keyed through the real ItemEqual.
-#ifndef USLOTS
-#define USLOTS 2
-#endif
+#define USLOTS 2     // the stand-in below is written loop-free for two entries
 namespace std {
 template<class K, class H, class E> class verif_uset {
 public:
@@ -34,22 +32,23 @@ public:
         K* p; K* e;
         K& operator*() const { return *p; }
         K* operator->() const { return p; }
-        iterator& operator++() { do { ++p; } while (p != e && !*p); return *this; }
+        iterator& operator++() { ++p; if (p != e && !*p) ++p; return *this; }
         bool operator==(const iterator& r) const { return p == r.p; }
         bool operator!=(const iterator& r) const { return p != r.p; }
     };
-    verif_uset() { for (int i = 0; i < USLOTS; i++) slot[i] = nullptr; }
-    verif_uset(verif_uset&& r) { for (int i = 0; i < USLOTS; i++) { slot[i] = r.slot[i]; r.slot[i] = nullptr; } }
+    verif_uset() { slot[0] = nullptr; slot[1] = nullptr; }
+    verif_uset(verif_uset&& r) { slot[0] = r.slot[0]; r.slot[0] = nullptr; slot[1] = r.slot[1]; r.slot[1] = nullptr; }
     iterator end() { return iterator{slot + USLOTS, slot + USLOTS}; }
     iterator begin() { iterator it{slot, slot + USLOTS}; if (!*it.p) ++it; return it; }
-    iterator find(const K& k) { for (int i = 0; i < USLOTS; i++) if (slot[i] && E()(slot[i], k)) return iterator{slot + i, slot + USLOTS}; return end(); }
+    iterator find(const K& k) { if (slot[0] && E()(slot[0], k)) return iterator{slot, slot + USLOTS}; if (slot[1] && E()(slot[1], k)) return iterator{slot + 1, slot + USLOTS}; return end(); }
     std::pair<iterator, bool> emplace(const K& k) {
         iterator f = find(k); if (f != end()) return {f, false};
-        for (int i = 0; i < USLOTS; i++) if (!slot[i]) { slot[i] = k; return {iterator{slot + i, slot + USLOTS}, true}; }
+        if (!slot[0]) { slot[0] = k; return {iterator{slot, slot + USLOTS}, true}; }
+        if (!slot[1]) { slot[1] = k; return {iterator{slot + 1, slot + USLOTS}, true}; }
         __CPROVER_assume(false); return {end(), false};
     }
     size_t erase(const K& k) { iterator f = find(k); if (f == end()) return 0; *f.p = nullptr; return 1; }
-    size_t size() const { size_t n = 0; for (int i = 0; i < USLOTS; i++) if (slot[i]) n++; return n; }
+    size_t size() const { return (size_t)(slot[0] != nullptr) + (size_t)(slot[1] != nullptr); }
 };
 }
 #define unordered_set verif_uset
@@ -65,6 +64,36 @@ using namespace photon;
 struct Obj { int key; int serial; };
 typedef ObjectCache<int, Obj*> OC;
 static Raw<OC> C;
+// Typed allocation pools: the cache's items and the cached objects live in typed static storage (struct-holding malloc blocks make every
+// access a byte-level extract: out of memory at 2 slices).  delete poisons the block: a later use of a destroyed object / freed item fails
+// the harness CHECKs (serial == 0, key == -1) or CBMC's pointer checks (the item's object pointer becomes an invalid address).
+// One item and one object per allocating thread: the thread id is a constant inside each scheduler branch, so every allocation is a
+// concrete address for the symbolic execution (a pool with a symbolic cursor made each vtable-pointer store a 4-way byte-level update).
+// (separate objects, not arrays: a pointer that may denote pool[0] or pool[1] of ONE array object has a symbolic offset and every access through it
+// becomes a byte-level operation over the whole array)
+static Raw<OC::Item> item_pool0, item_pool1, item_pool2, item_pool3; static Raw<Obj> obj_pool0, obj_pool1, obj_pool2, obj_pool3;
+static bool item_used[4]; static bool obj_used[4]; static int items_freed, objs_freed;
+void* operator new(size_t n)
+{
+    int me = (int)verif_get_tid();
+#define PN(i) if (me == i) { \
+        if (n == sizeof(OC::Item)) { CHECK(!item_used[i], "harness bound: each user allocates at most one cache item"); item_used[i] = true; return &item_pool##i.v; } \
+        if (n == sizeof(Obj)) { CHECK(!obj_used[i], "harness bound: each user constructs at most one object"); obj_used[i] = true; return &obj_pool##i.v; } }
+    K_EACH(PN)
+#undef PN
+    CHECK(false, "harness: unexpected allocation"); return nullptr;
+}
+static inline void pool_free(void* p)
+{
+    if (!p) return;
+#define PF(i) if (p == (void*)&item_pool##i.v) { item_pool##i.v._obj = (void*)(uintptr_t)0xdead0000; item_pool##i.v._refcnt = 0x5a5a5a5a; items_freed++; return; } \
+              if (p == (void*)&obj_pool##i.v) { CHECK(obj_pool##i.v.serial != 0, "an object is destroyed at most once"); obj_pool##i.v.serial = 0; obj_pool##i.v.key = -1; objs_freed++; return; }
+    K_EACH(PF)
+#undef PF
+    CHECK(false, "harness: delete of a block that was not allocated");
+}
+void operator delete(void* p) noexcept { pool_free(p); }
+void operator delete(void* p, size_t) noexcept { pool_free(p); }
 // ghost
 static int ctor_running[2], ctors[2], live_refs[2];
 static int acquired_ok[KN], acquire_failed[KN];
